@@ -377,7 +377,7 @@ pub fn c14(tier: &str, seed: u64) -> Vec<Case> {
             v.push(c);
         }
     }
-    v.extend(socket_cases(tier, seed));
+    v.extend(live_vec_with_baseline("sync responder", &|| socket_cases(tier, seed)));
     v
 }
 
@@ -393,6 +393,57 @@ fn amplification_query(name: &Name, n: usize) -> Vec<u8> {
     b.extend_from_slice(&[0, 16, 0x80, 1]);
     for _ in 1..n { b.extend_from_slice(&[0xC0, 12, 0, 16, 0x80, 1]); }
     b
+}
+
+/// Does this environment deliver loopback multicast on the mDNS group at all? Probed once, with sockets made here (not by
+/// the library): a listener bound to 5353 with address reuse that joins 224.0.0.251, and a plain sender.
+pub fn env_multicast_ok() -> bool {
+    static OK: std::sync::OnceLock<bool> = std::sync::OnceLock::new();
+    *OK.get_or_init(|| {
+        use socket2::{Domain, Protocol, Socket, Type};
+        use std::net::{Ipv4Addr, SocketAddr, SocketAddrV4};
+        let probe = || -> std::io::Result<bool> {
+            let l = Socket::new(Domain::IPV4, Type::DGRAM, Some(Protocol::UDP))?;
+            l.set_reuse_address(true)?;
+            let _ = l.set_reuse_port(true);
+            l.bind(&SocketAddr::V4(SocketAddrV4::new(Ipv4Addr::UNSPECIFIED, 5353)).into())?;
+            l.join_multicast_v4(&Ipv4Addr::new(224, 0, 0, 251), &Ipv4Addr::UNSPECIFIED)?;
+            l.set_read_timeout(Some(std::time::Duration::from_millis(200)))?;
+            let listener: std::net::UdpSocket = l.into();
+            let sender = std::net::UdpSocket::bind("0.0.0.0:0")?;
+            let token = format!("vharness-probe-{}", std::process::id()).into_bytes();
+            let end = std::time::Instant::now() + std::time::Duration::from_millis(1500);
+            let mut buf = [0u8; 9000];
+            while std::time::Instant::now() < end {
+                sender.send_to(&token, "224.0.0.251:5353")?;
+                if let Ok((n, _)) = listener.recv_from(&mut buf) { if buf[..n] == token[..] { return Ok(true); } }
+            }
+            Ok(false)
+        };
+        probe().unwrap_or(false)
+    })
+}
+
+/// A live case that ends "not exercised" (its baseline - the service doing the simplest thing it is there for - was not
+/// established) while the environment demonstrably delivers multicast is run once more; twice in a row it is a failure of
+/// the service, not an absent network.
+pub fn live_with_baseline(what: &str, f: &dyn Fn() -> Case) -> Case {
+    let c = f();
+    if !c.tags.iter().any(|t| t == "sockets-not-exercised") || c.oracle_fail.is_some() || !env_multicast_ok() { return c; }
+    let again = f();
+    if !again.tags.iter().any(|t| t == "sockets-not-exercised") || again.oracle_fail.is_some() { return again; }
+    again.fail("live-baseline-lost", format!("{}: this environment delivers loopback multicast (probed with sockets of the harness's own), yet twice in a row the service did not do the simplest thing its live case starts with (answer a plain query / discover a plain announcement / be constructed)", what))
+}
+
+/// the same for a live run that yields several cases
+pub fn live_vec_with_baseline(what: &str, f: &dyn Fn() -> Vec<Case>) -> Vec<Case> {
+    let lost = |c: &Case| c.tags.iter().any(|t| t == "sockets-not-exercised") && c.oracle_fail.is_none();
+    let first = f();
+    if !first.iter().any(lost) || !env_multicast_ok() { return first; }
+    let second = f();
+    first.into_iter().zip(second.into_iter()).map(|(a, b)| {
+        if !lost(&a) { a } else if !lost(&b) { b } else { b.fail("live-baseline-lost", format!("{}: this environment delivers loopback multicast (probed with sockets of the harness's own), yet twice in a row the service did not do the simplest thing its live case starts with", what)) }
+    }).collect()
 }
 
 /// a sample of the hostile datagrams over loopback multicast against the real services
@@ -449,9 +500,9 @@ fn socket_cases(tier: &str, seed: u64) -> Vec<Case> {
         Err(_) => { c = c.tag("sockets-not-exercised"); }
     }
     v.push(c);
-    v.push(live_resolver(tier, seed));
-    v.push(live_discovery(tier, seed));
-    v.extend(live_tokio(tier, seed));
+    v.push(live_with_baseline("sync resolver", &|| live_resolver(tier, seed)));
+    v.push(live_with_baseline("sync discovery listener", &|| live_discovery(tier, seed)));
+    v.extend(live_vec_with_baseline("tokio services", &|| live_tokio(tier, seed)));
     v
 }
 
@@ -1398,12 +1449,12 @@ pub fn c15(tier: &str, seed: u64) -> Vec<Case> {
         else if areports != want { c = c.fail("reports-merged", format!("tokio flavour: advertised {} ; reported on the channel {}", want, areports)); }
         v.push(c);
     }
-    v.push(live_pair());
-    v.push(match std::panic::catch_unwind(|| { let rt = tokio::runtime::Builder::new_current_thread().enable_all().build().unwrap(); rt.block_on(live_pair_tokio()) }) {
+    v.push(live_with_baseline("sync discovery pair", &live_pair));
+    v.push(live_with_baseline("tokio discovery pair", &|| match std::panic::catch_unwind(|| { let rt = tokio::runtime::Builder::new_current_thread().enable_all().build().unwrap(); rt.block_on(live_pair_tokio()) }) {
         Ok(c) => c,
         Err(_) => Case::oracle_only().tag("sockets-pair").fail("live-discovery-panic", "tokio pair: a ServiceDiscovery call panicked".into()),
-    });
-    v.push(live_late_joiner());
+    }));
+    v.push(live_with_baseline("late joiner", &live_late_joiner));
     // a peer that leaves says goodbye with the cache-flush bit (what `remove_service_from_discovery` sends: the same
     // records, `to_cache_flush_record`): through the discovery pipeline (wire, parse, filter, into_owned, store) the
     // instance is gone from the known services a little more than a second later, in both flavours
